@@ -4,6 +4,7 @@ import json
 import math
 import subprocess
 import sys
+from dataclasses import replace
 from decimal import Decimal
 
 from harness import core
@@ -23,7 +24,7 @@ META = {
         "descriptors (wrinkles stated: a one-residue chain gets only the N prefix, N-terminal PRO is NPRO even under NEUTRAL-NTERM); set_termini for ALL chain lists, hidden "
         "chain ends (OXT/H3T inside a chain) included: residues preserved in order, every resulting segment has at most one N/5' flag (on its head) and at most one C/3' flag (on "
         "its last polymer residue not hidden by an NH2/NME cap), non-cyclic segments have exactly these, the SET of patches and hence the terminus state in ffname is a function "
-        "of the flags however often assign_termini re-applied the patches; chains without hidden ends that are cyclic get nothing. REFUTED (witness replayed on the real "
+        "of the flags however often assign_termini re-applied the patches; chains without hidden ends that are cyclic get nothing (cyclic = the chain's first N-bearing and last C-bearing residue are within 1.35 A, so waters/ligands listed under the ring's chain id do not hide the closure: fix C02-F3). REFUTED (witness replayed on the real "
         "set_termini, pipeline then aborts): a segment split off after phase 1 keeps its head's N flag even if it is cyclic itself. The integrality guard never raises on residue "
         "lists made of table states (per-residue 4-decimal rounding modelled in exact decimals; any total within 1e-3 of the exact one passes, float summation error is measured, "
         "not proved). PARSE: NEUTRAL-N = N - 1 and NEUTRAL-C = C + 1 exactly for all 56 parameterised pairs; the other five force fields know no atom of any NEUTRAL state."
@@ -57,6 +58,7 @@ THEOREMS = (
         "C02_termini_cyclic_after_split_refuted",
         "C02_cyclic_split_example",
         "C02_hidden_end_example",
+        "C02_ring_with_water_example",
         "C02_nonvacuous",
     ]
     + [f"C02_guard_never_fires_{f}" for f in FFS]
@@ -203,25 +205,60 @@ def build_layout(spec):
         if kind == "pep":
             for s, seq in enumerate(ch["segments"]):
                 part = B.build_peptide(seq, chain=cid, start=num, origin=(0.0, y0 + 9.0 * s, 4.0 * s), cterm_oxt=ch.get("oxt", True), relax=False, icode=ch.get("icode", ""))
+                punk = {int(i) % len(seq): v for i, v in ch.get("unk", {}).items()} if s == 0 else {}
+                if punk:
+                    pres, part = B.residues_of(part), []
+                    for i, rr in enumerate(pres):
+                        part += [replace(a_, resname=punk[i][0], record=punk[i][1]) for a_ in rr if a_.name in ("N", "CA", "C", "O", "CB", "OXT")] if i in punk else rr
                 atoms += part
                 for i, nm in enumerate(seq):
                     role = "NC" if len(seq) == 1 else ("N" if i == 0 else ("C" if i == len(seq) - 1 else "I"))
-                    expect.append({"name": nm, "role": role, "chain": k})
+                    if punk:  # only an unknown residue in the MIDDLE leaves the ends describable
+                        role = "X" if (i in punk or 0 in punk or len(seq) - 1 in punk) else role
+                    expect.append({"name": punk[i][0] if i in punk else nm, "role": role, "chain": k})
                 num += len(seq) + ch.get("gap", 0)
         elif kind == "cyc":
             key = tuple(ch["seq"])
             if key not in _RING_CACHE:
                 _RING_CACHE[key] = B.ring_peptide(list(key), solution=0)
             part = [a.at(a.xyz + [0.0, y0, 0.0]) for a in _RING_CACHE[key]]
-            part = B.set_chain(B.renumber(part, lambda c_, r_, ic_, _n=num: r_ - 1 + _n), cid)
+            rres = B.residues_of(part)
+            rot = ch.get("rot", 0) % len(rres)
+            rres = rres[rot:] + rres[:rot]  # the same ring, listed from another ring position
+            rnames = list(ch["seq"][rot:]) + list(ch["seq"][:rot])
+            pre = []
+            for ex in ch.get("pre", []):  # water / ligand listed BEFORE the ring under the same chain id
+                if ex == "wat":
+                    w = B.waters(1, around=atoms + part + pre, chain=cid, start=num)
+                    pre += w
+                    expect.append({"name": "HOH", "role": "W", "chain": k})
+                else:
+                    c0 = part[0].xyz
+                    pre += [B.AtomRec("HETATM", 0, an, "", "LIG", cid, num, "", float(c0[0]) + 9.0 + 1.4 * j, float(c0[1]) + 9.0, float(c0[2]) + 9.0, 1.0, 0.0, an[0]) for j, an in enumerate(["C1", "O1", "N1"])]
+                    expect.append({"name": "LIG", "role": "X", "chain": k})
+                num += 1
+            unk = {int(i) % len(rres): v for i, v in ch.get("unk", {}).items()}  # listed position -> [name, record]
+            part = []
+            for i, rr in enumerate(rres):
+                for a_ in rr:
+                    if i in unk:
+                        if a_.name not in ("N", "CA", "C", "O", "CB"):
+                            continue  # a residue pdb2pqr has no definition for; the backbone keeps the closure geometry real
+                        a_ = replace(a_, resname=unk[i][0], record=unk[i][1])
+                    part.append(replace(a_, resseq=num + i, chain=cid))
             if ch.get("oxt"):  # malformed on purpose: OXT on the residue that closes the ring
                 last = [a for a in part if a.resseq == part[-1].resseq]
                 f = {a.name: a for a in last}
                 oxt = B.place(f["N"].xyz, f["CA"].xyz, f["C"].xyz, 1.25, 117.0, 60.0)
                 part = part + [B.AtomRec("ATOM", 0, "OXT", "", f["C"].resname, cid, f["C"].resseq, "", float(oxt[0]), float(oxt[1]), float(oxt[2]), 1.0, 0.0, "O")]
-            atoms += part
-            num += len(ch["seq"])
-            expect += [{"name": nm, "role": "cyc", "chain": k} for nm in ch["seq"]]
+            atoms += pre + part
+            num += len(rres)
+            # what the chain's first / last LISTED residue is, from the input alone (diagnosis of ring failures)
+            kind_of_pos = lambda i: "unk" if i in unk else "std"
+            first = "het" if ch.get("pre") else kind_of_pos(0)
+            last_ = "het" if any(e in ("wat", "lig") for e in ch.get("extras", [])) else ("std" if ch.get("tail") else kind_of_pos(len(rres) - 1))
+            for i, nm in enumerate(rnames):
+                expect.append({"name": unk[i][0] if i in unk else nm, "role": "X" if i in unk else "cyc", "chain": k, "ends": f"{first}/{last_}"})
             if ch.get("tail"):
                 part = B.build_peptide(ch["tail"], chain=cid, start=num, origin=(14.0, y0 + 9.0, 6.0), relax=False)
                 atoms += part
@@ -269,6 +306,11 @@ def build_layout(spec):
                     atoms.append(B.AtomRec("HETATM", 0, an, "", rn, cid, num + 1, "", float(base[0]) + 3.0 + 1.4 * j, float(base[1]) + 3.0, float(base[2]) + 3.0, 1.0, 0.0, an[0]))
                 expect.append({"name": rn, "role": "X", "chain": k})
                 num += 2
+    for k, ch in enumerate(spec):  # a cap stops the C-terminus search: no statement about that chain's last residues
+        if any(x in ("NME", "NH2") for x in ch.get("extras", [])):
+            for e in expect:
+                if e["chain"] == k and e["role"] in ("C", "NC", "3", "53"):
+                    e["role"] = "X"
     return B.reserial(atoms), expect
 
 
@@ -364,12 +406,21 @@ def gen_layout(rng):
             nseg = rng.choice([1, 1, 1, 2, 2, 3])
             segs = [rand_seq(rng, rng.choice([1, 2, 2, 3, 4])) for _ in range(nseg)]
             ch = {"type": "pep", "chain": cid, "segments": segs, "start": start, "gap": rng.choice([0, 0, 3])}
+            if rng.random() < 0.2 and len(segs[0]) >= 2:
+                ch["unk"] = {str(rng.choice([0, -1, 1])): [rng.choice(["DAL", "XAA"]), rng.choice(["HETATM", "ATOM"])]}
             if rng.random() < 0.15:
                 ch["oxt"] = False
             if rng.random() < 0.15:
                 ch["icode"] = "A"
         elif r < 0.7:
             ch = {"type": "cyc", "chain": cid, "seq": rng.choice([["ALA", "GLY", "SER", "ALA", "GLY"], ["GLY", "ALA", "GLY", "LYS", "ALA"], ["ALA", "ALA", "GLY", "ALA", "SER", "GLY"]]), "start": start}
+            ch["rot"] = rng.choice([0, 0, 1, 2, 3, 4])
+            if rng.random() < 0.6:  # residues without a pdb2pqr definition at the first / last / a middle listed position
+                ch["unk"] = {str(pos): [rng.choice(["DAL", "XAA", "MLE"]), rng.choice(["HETATM", "ATOM"])] for pos in rng.sample([0, -1, 2], rng.choice([1, 1, 2]))}
+                if cid == " ":
+                    ch["chain"] = cid = rng.choice("RSTUVW")
+            if rng.random() < 0.2:
+                ch["pre"] = [rng.choice(["wat", "lig"])]
         elif r < 0.82:
             parts = []
             for _ in range(rng.choice([2, 2, 3])):
@@ -429,15 +480,18 @@ def termini_case(lay):
     text, _ = pdb_text(lay["spec"], ter=lay["ter"])
     # the hidden-end markers (OXT; H3T or a residue name ending in 3) are read from the INPUT records, not from the
     # residue objects: an atom dropped or renamed while the residue is built shows up as a disagreement
-    in_names, by_serial, key, in_where, nter = [], {}, None, [], 0
+    in_names, by_serial, key, in_where, nter, in_xyz = [], {}, None, [], 0, []
     for ln in text.splitlines():
         if ln.startswith(("ATOM", "HETATM")):
             k_ = (ln[17:20], ln[21], ln[22:27])
             if k_ != key:
                 in_names.append((ln[17:20].strip(), set(), ln.startswith("ATOM")))
                 in_where.append((ln[21], nter))  # chain-ID column, number of TER records before it
+                in_xyz.append({})
                 key = k_
             in_names[-1][1].add(ln[12:16].strip())
+            if ln[12:16].strip() in ("N", "C"):
+                in_xyz[-1][ln[12:16].strip()] = (float(ln[30:38]), float(ln[38:46]), float(ln[46:54]))
             by_serial[int(ln[6:11])] = len(in_names) - 1
         elif ln.startswith("TER"):
             key = None
@@ -470,14 +524,16 @@ def termini_case(lay):
         ds = []
         for r in ch.residues:
             i = rid[id(r)]
-            hasn, hasc = "N" in r.map, "C" in r.map
-            nh2 = False
-            if hasn:
-                nh2 = len([a for a in r.map["N"].bonds if a.name[0] != "H"]) > 1
-                pos_n[i] = r.map["N"].coords
-            if hasc:
-                pos_c[i] = r.map["C"].coords
             iname, inames, _ = in_names[by_serial[r.atoms[0].serial]]
+            # backbone N / C presence and positions from the INPUT records (the ring-closure test reads them)
+            hasn, hasc = "N" in inames, "C" in inames
+            nh2 = False
+            if "N" in r.map:
+                nh2 = len([a for a in r.map["N"].bonds if a.name[0] != "H"]) > 1
+            if hasn:
+                pos_n[i] = in_xyz[by_serial[r.atoms[0].serial]]["N"]
+            if hasc:
+                pos_c[i] = in_xyz[by_serial[r.atoms[0].serial]]["C"]
             h3t = "H3T" in inames or iname.endswith("3")
             ds.append(f"mkrd {i} {kind_of(r)} {b(r.name in ('NH2', 'NME'))} {b('OXT' in inames)} {b(h3t)} {b(hasn)} {b(hasc)} {b(nh2)}")
         chains.append(f"({core.coq_string(ch.chain_id)}, {core.coq_list(ds)})")
@@ -516,6 +572,12 @@ def corr_termini(ctx, n):
     lays[:0] = [
         {"spec": [{"type": "multi", "chain": "B", "parts": [{"na": ["A", "C", "G"]}, {"na": ["T", "A"]}], "extras": []}], "ter": True, "neutraln": False, "neutralc": False},
         {"spec": [{"type": "multi", "chain": " ", "parts": [{"na": ["G", "U"], "rna": True}, {"pep": ["ALA", "GLY", "SER"]}, {"na": ["C", "A", "U"], "rna": True}], "extras": ["wat"]}], "ter": False, "neutraln": False, "neutralc": False},
+    ]
+    R5 = ["ALA", "GLY", "SER", "ALA", "GLY"]
+    lays[:0] = [
+        {"spec": [{"type": "cyc", "chain": "A", "seq": R5, "unk": {"-1": ["DAL", "HETATM"]}, "extras": []}], "ter": False, "neutraln": False, "neutralc": False},
+        {"spec": [{"type": "cyc", "chain": "A", "seq": R5, "rot": 2, "unk": {"0": ["XAA", "ATOM"]}, "extras": ["wat"]}, {"type": "cyc", "chain": "B", "seq": R5, "rot": 3, "extras": []}], "ter": True, "neutraln": False, "neutralc": False},
+        {"spec": [{"type": "cyc", "chain": "A", "seq": R5, "pre": ["wat"], "unk": {"2": ["MLE", "HETATM"]}, "extras": []}, {"type": "pep", "chain": "B", "segments": [["ALA", "GLY", "SER", "LYS"]], "unk": {"-1": ["DAL", "HETATM"]}, "extras": []}], "ter": False, "neutraln": False, "neutralc": False},
     ]
     # the refutation witness of C02_termini_cyclic_after_split_refuted, replayed on the real code every run
     lays.insert(0, {"spec": [{"type": "cyc", "chain": "A", "seq": ["ALA", "GLY", "SER", "ALA", "GLY"], "oxt": True, "tail": ["GLY", "ALA"], "extras": []}], "ter": True, "neutraln": False, "neutralc": False})
@@ -612,6 +674,37 @@ def run_case(ctx, case):
     return out
 
 
+_DEFN = {}
+
+
+def state_atoms(name, observed):
+    """Atoms of the state `name` per pdb2pqr's topology data (the pre-patched definition template of that name;
+    alternatives of which the finished residue keeps one are left out).  Falls back to the observed atoms when the
+    definitions have no template of that name (nucleotide end states in some versions)."""
+    if "d" not in _DEFN:
+        from harness import builder as B
+
+        _DEFN["d"] = B.definitions()
+    d = _DEFN["d"]
+    if name == "WAT":
+        return ["O", "H1", "H2"]
+    if name not in d.map:
+        return list(observed)
+    skip = {"N+1", "C-1"}
+    base = name[-3:]
+    if base == "ASH":
+        skip |= {"HD1", "HD2"}
+    if base == "GLH":
+        skip |= {"HE1", "HE2"}
+    if name == "NPRO":
+        skip |= {"H3"}
+    alt = ({"HD1", "HD2"} if base == "ASH" else {"HE1", "HE2"} if base == "GLH" else set()) & set(observed)
+    atoms = [a for a in d.map[name].map if a not in skip] + sorted(alt)  # the carboxyl hydrogen the residue kept
+    if {"O1P", "O2P"} <= set(atoms) and {"OP1", "OP2"} & set(observed):
+        atoms = [{"O1P": "OP1", "O2P": "OP2"}.get(a, a) for a in atoms]
+    return atoms
+
+
 def expected_states(e, opts, ff):
     """(names allowed, formal charge) of residue e from the harness' own table; None = no statement."""
     nm, role = e["name"], e["role"]
@@ -673,7 +766,9 @@ def judge(ctx, case, out, stats):
             continue
         names, q = es
         # is the expected state parameterised for the atoms this residue ended with?  (independent of the code's naming)
-        ok_names = [n for n in names if all(ffobj.get_params(n, a)[0] is not None and ffobj.get_params(n, a)[1] is not None for a in r["atoms"])]
+        # judged on the atoms the EXPECTED state has by the topology data, not on the atoms the residue ended with: a
+        # residue that received the wrong terminus patch carries extra atoms and must not pass as "unparameterised"
+        ok_names = [n for n in names if all(ffobj.get_params(n, a)[0] is not None and ffobj.get_params(n, a)[1] is not None for a in state_atoms(n, r["atoms"]))]
         key = f"{ff}:{e['name']}:{e['role']}:{'+'.join(sorted(opts))}"
         if not ok_names:
             all_param = False
@@ -693,7 +788,11 @@ def judge(ctx, case, out, stats):
         elif q is not None and (abs(Decimal(r["exact"]) - q) > Decimal("0.001") or abs(r["charge"] - q) > 1.5e-3):
             cond = "sum-off-formal"
             what = f"{r['ffname']} ({ff} {' '.join(opts)}): charge {r['exact']} (residue.charge {r['charge']}), formal charge {q}"
-        if cond:
+        if cond and e["role"] == "cyc":
+            reported += 1
+            ctx.fail({"site": "cyclic chain termini", "ff": ff, "condition": "terminus-on-cyclic-chain" if cond == "wrong-state-name" else cond, "ends": e.get("ends", "std/std")},
+                     f"head-to-tail cyclic chain (first/last listed residue: {e.get('ends')}): " + what, dict(tag, residue=k))
+        elif cond:
             reported += 1
             ctx.fail({"site": "residue state charge", "ff": ff, "state": r["ffname"] if cond != "wrong-state-name" else f"{e['name']}@{e['role']}", "condition": cond}, what, dict(tag, residue=k))
         if q is not None:
@@ -716,7 +815,7 @@ def judge(ctx, case, out, stats):
             stats["aborted-unparameterised"] = stats.get("aborted-unparameterised", 0) + 1
         return
     # PQR column sums per residue and in total
-    if out["pqr"] is not None and all_param:
+    if out["pqr"] is not None and all_param and not reported:
         groups = out["pqr"]
         if len(groups) == len(res):
             for k, (g, r, e) in enumerate(zip(groups, res, exp)):
@@ -809,6 +908,28 @@ def other_cases(rng, thorough):
     return cases
 
 
+def ring_cases():
+    """Head-to-tail cyclic peptides (closure N-C < 1.35 A by construction) with residues pdb2pqr has no definition
+    for at the first / last / a middle listed position, re-listed from other ring positions, with a water or ligand
+    listed before / after under the ring's chain id, two rings in one file; a linear peptide with an unknown residue
+    in the middle.  Expectation from the input alone: no terminus on any residue of a ring.  C02 only."""
+    R5, R6 = ["ALA", "GLY", "SER", "ALA", "GLY"], ["ALA", "ALA", "GLY", "ALA", "SER", "GLY"]
+    ring = lambda **kw: dict({"type": "cyc", "chain": "A", "seq": R5, "extras": []}, **kw)
+    specs = [
+        [ring(unk={"-1": ["DAL", "HETATM"]})],
+        [ring(unk={"0": ["XAA", "ATOM"]})],
+        [ring(unk={"2": ["MLE", "HETATM"]})],
+        [ring(rot=2, unk={"-1": ["DAL", "ATOM"]})],
+        [ring(rot=3)],
+        [ring(extras=["wat"])],
+        [ring(pre=["wat"])],
+        [ring(extras=["lig"])],
+        [ring(rot=1, unk={"0": ["DAL", "HETATM"]}), ring(chain="B", seq=R6, rot=4)],
+        [{"type": "pep", "chain": "A", "segments": [["ALA", "GLY", "SER", "LYS"]], "unk": {"1": ["XAA", "HETATM"]}, "extras": []}],
+    ]
+    return [{"spec": sp, "ter": False, "ff": ff, "opts": []} for ff in FFS for sp in specs]
+
+
 def blank_chain_cases():
     """Blank chain-ID column with 0 / 1 / n-1 / n TER records (used by C02 only: the code re-letters and re-orders
     these chains, judge() re-aligns residues by input serial).  Roles come from the input (apply_input_rules)."""
@@ -836,6 +957,7 @@ def search(ctx, volume, seeds=()):
         cases += triple_cases(ctx.rng, FFS, sh)
     cases += other_cases(ctx.rng, ctx.thorough or volume > 1)
     cases += blank_chain_cases()
+    cases += ring_cases()
     for lay in seeds:  # layouts on which the termini correspondence disagreed
         for ff in ("AMBER", "PARSE"):
             opts = (["--neutraln"] if lay.get("neutraln") else []) + (["--neutralc"] if lay.get("neutralc") else [])
